@@ -115,7 +115,10 @@ def gen_workload(rng, idx):
     # optional callback faults (thread-local plans)
     if rng.random() < 0.3:
         c = rng.choice(calls)
-        c["plan"] = {str(rng.choice([1, 1, 2, 3])): rng.choice(["exc_msg", "KeyError", "exc_noargs", "SchemaError"])}
+        # polars may run an element-wise UDF on one of its own pool threads, where the simulated caller's thread-local
+        # fault plan is not visible: such a plan would fire alone but not under the scheduler - a harness artefact
+        if '"pl_elem_true"' not in kernel.jdump(subjects[c["subject"]]):
+            c["plan"] = {str(rng.choice([1, 1, 2, 3])): rng.choice(["exc_msg", "KeyError", "exc_noargs", "SchemaError"])}
     cold = rng.random() < 0.35
     return {"config": cfg, "subjects": subjects, "calls": calls, "cold": cold}
 
